@@ -51,6 +51,9 @@ def generate(rng, tier, index):
     ops.append({"op": "rerun_returned", "times": int(rng.integers(1, 3)), "strategy": specgen.choice(rng, ["reversible", "reversible", "checkpointed"]),
                 "k": int(rng.integers(0, max(1, T - 1))), "n": int(rng.integers(1, T + 1))})
     ops.append({"op": "cut_then_reset", "cut": int(rng.integers(1, T + 1))})
+    # the loop's own reset flag on a *used* container (e.g. a warm-up phase that does not record), then a recording continuation:
+    # must equal the same two calls on a pristine container
+    ops.append({"op": "reset_flag_on_used_container", "cut": int(rng.integers(0, T)), "record_first": bool(rng.uniform() < 0.4)})
     order = rng.permutation(len(ops))
     spec["ops"] = [ops[i] for i in order]
     # non-dispersive scenes are placed with a reversible gradient configuration so that the interface-recording state exists
@@ -225,6 +228,23 @@ def execute(spec):
                 count(T)
                 fault("dirty_restart")
                 compare((t2, arr), "rerun_mismatch", {"how": "returned_arrays", "iteration": i})
+        elif k == "reset_flag_on_used_container":
+            c, rec = int(op["cut"]), bool(op["record_first"])
+
+            def two_calls(arr_in):
+                t1, a1 = custom_fdtd_forward(arr_in, objs, cfg, key, reset_container=True, record_detectors=rec, start_time=0, end_time=c, show_progress=False)
+                return a1, custom_fdtd_forward(a1, objs, cfg, key, reset_container=False, record_detectors=True, start_time=c, end_time=T, show_progress=False)
+
+            mid_u, end_u = two_calls(ref_arr)
+            mid_f, end_f = two_calls(arrays0)
+            count(2 * T)
+            fault("reset_flag_on_used_container")
+            for tag, u, f in (("after_reset_segment", (c, mid_u), (c, mid_f)), ("after_continuation", end_u, end_f)):
+                d, kk = dr.dict_rel_diff(dr.full_np(f), dr.full_np(u))
+                resid["history_dependent_reset"] = max(resid.get("history_dependent_reset", 0.0), d if np.isfinite(d) else 1e300)
+                if not (d <= TOL):
+                    viol.append({"monitor": "history_dependent_reset", "metric": "rel_diff", "value": d, "tolerance": TOL, "key": kk, "where": tag, "cut": c, "record_first_segment": rec})
+                    break
         elif k == "cut_then_reset":
             c = op["cut"]
             _, a1 = seg(arrays0.reset(), 0, c)
